@@ -231,12 +231,21 @@ def run(ctx):
         ex = list(exhaustive_cases())
         nexh = len(ex)
         cases.extend(ex)
-    ctx.log('running %d histories on the implementation' % len(cases))
+    # the same kind of histories run WITHOUT any look-up between the operations (direct oracle
+    # only: the per-step observations the Coq comparison needs would themselves be look-ups)
+    nsparse = 1500 if quick else 15000
+    sparse = []
+    for _ in range(nsparse):
+        c = gen_case(ctx.rng, 6 if ctx.rng.random() < 0.8 else 14)
+        c['sparse'] = True
+        sparse.append(c)
+    ctx.log('running %d histories on the implementation (+%d without intermediate look-ups)' % (len(cases), len(sparse)))
     results = run_impl_cases(cases)
+    sparse_results = run_impl_cases(sparse)
     terms = [c_case(c, r['obs']) for c, r in zip(cases, results)]
     ctx.log('evaluating the model on the same histories inside Coq')
     bad, errors = core.coq_eval_cases(ctx, HEADER, CASE_TYPE, terms, 'C14.mismatches', chunk=400)
-    failures = first_failures(cases, results)
+    failures = first_failures(cases + sparse, results + sparse_results)
     mismatches = []
     for i in bad[:20]:
         mismatches.append({'case_index': i, 'input': cases[i], 'implementation_observed': results[i]['obs'],
@@ -265,7 +274,8 @@ def run(ctx):
                 'thorough adds every history of length <= 2 from a 33-op alphabet on all initial lists of length <= 2',
         'samples': [{'init': c['init'], 'ops': c['ops'], 'observed': r['obs']} for c, r in list(zip(cases, results))[ncorpus:ncorpus + 3]],
         'distribution': {'ops_by_kind': opcount, 'steps_that_raised': errcount, 'history_length_histogram': lens,
-                         'corpus_cases': ncorpus, 'exhaustive_slice_cases': nexh},
+                         'corpus_cases': ncorpus, 'exhaustive_slice_cases': nexh,
+                         'histories_without_intermediate_lookups': len(sparse)},
         'mismatches': mismatches,
         'errors': errors,
         'exhaustive': bool(nexh),
